@@ -14,3 +14,9 @@ func (config Config) VerifWithIndexConfig(ic index.Config) Config {
 	config.indexConfig = ic
 	return config
 }
+
+// VerifSnapshot returns the index snapshot behind this Reader.
+func (r *Reader) VerifSnapshot() *index.Snapshot { return r.reader }
+
+// VerifIndexWriter returns the index writer behind this Writer.
+func (w *Writer) VerifIndexWriter() *index.Writer { return w.chill }
